@@ -711,10 +711,10 @@ func (b *teletextPageBuffer) parsePacketData(i []byte, packetNumber uint8) {
 	// Make sure the map is initialized
 	if _, ok := b.currentPage.data[packetNumber]; !ok {
 		b.currentPage.data[packetNumber] = make([]byte, 40)
+		b.currentPage.rows = append(b.currentPage.rows, int(packetNumber))
 	}
 
 	// Loop through input
-	b.currentPage.rows = append(b.currentPage.rows, int(packetNumber))
 	for idx := uint8(0); idx < 40; idx++ {
 		v, ok := astikit.ByteParity(bits.Reverse8(i[idx]))
 		if !ok {
